@@ -24,7 +24,7 @@ Fixpoint lib_write (hdr : nat) (t : dtype) (v : value) {struct t} : result bytes
   | TVec n => match v with VVec b => if Nat.eqb (length b) n then Ok b else Err EStruct | _ => Err EStruct end
   | TBlob => match v with VBytes b => p <- write_len (len b) ;; Ok (p ++ b) | _ => Err EType end
   | TString => match v with
-               | VStr b => p <- write_len (charcount b) ;; Ok (p ++ b)      (* len(payload) counts characters, the bytes are written *)
+               | VStr b => p <- write_len (len b) ;; Ok (p ++ b)            (* the text is encoded first: the prefix is the number of BYTES *)
                | VBytes b => p <- write_len (len b) ;; Ok (p ++ b)
                | _ => Err EType end
   | TPython => Err ENotImpl
@@ -38,7 +38,7 @@ Fixpoint lib_write (hdr : nat) (t : dtype) (v : value) {struct t} : result bytes
           let fix go (l : list value) : result bytes :=
             match l with [] => Ok [] | x :: r => a <- lib_write hdr e x ;; b <- go r ;; Ok (a ++ b) end in
           match sz with
-          | Some _ => go l                                    (* fixed size: the length is not checked *)
+          | Some n => if Nat.eqb (length l) n then go l else Err EValue     (* fixed size: another length is refused (ValueError) *)
           | None => if len_list l <? 256 then body <- go l ;; Ok (n2b (len_list l) :: body) else Err EStruct
           end
       | _ => Err EType end
@@ -53,7 +53,7 @@ Fixpoint lib_write (hdr : nat) (t : dtype) (v : value) {struct t} : result bytes
                                 | None => Err EKey end
             end in
           body <- go fs ;; Ok (if an then x01 :: body else body)
-      | VNone => Err EType          (* payload[key] on None: TypeError - for an AllowNone dict after the flag byte 0 was written *)
+      | VNone => if an then Ok [x00] else Err EType       (* AllowNone: the flag byte 0 and nothing else; otherwise payload[key] on None: TypeError *)
       | _ => Err EType end
   end.
 
